@@ -12,6 +12,10 @@ SHAPES = {
 # how many pool slots exist per shape (harness/dyn_runner.hpp build_pool)
 SHAPE_KEYS = {"V": 6, "P": 2, "VV": 3, "VNV": 2, "VVV": 2}
 
+
+def arity_of(shape):
+    return len([ch for ch in shape if ch not in "Ns"])
+
 ALL_POLICIES = ["fast", "chk", "vec", "map", "ind", "indvec", "indfast", "thr", "old", "prj", "prjmap",
                 "dbg", "rel", "rem", "stdd", "stdr", "stdmap", "dfr", "dfrh"]
 # policies whose ids are eager (not deferred)
@@ -113,6 +117,12 @@ class Script:
 
     def vcall(self, m, hs, p=0):
         self.lines.append("VC %d %d %d %s" % (p, m, len(hs), " ".join(map(str, hs))))
+
+    def write_offsets(self, p=0):
+        self.lines.append("SO %d" % p)
+
+    def load_offsets(self, m, which=-1, idx=0, delta=0, p=0):
+        self.lines.append("SL %d %d %d %d %d" % (p, m, which, idx, delta))
 
     def observe_all(self, p=0):
         self.lines.append("A %d" % p)
